@@ -433,28 +433,24 @@ theorem bridge_instantiate_sound_uncond (O : Oracles) (c : ClassDef) (ord : List
     ∃ x0, x = addConstants c.constants x0 ∧ wellFormed O (c.toStruct ord [c.name]) x0 = true :=
   bridge_instantiate_sound O c ord kw x (bridge_wfDecl c ord [c.name] hk hreq hm) h
 
-/-! ### known finding (regression of /repo 95931f6): what OneOf / AllOf store is not a fixpoint of their own validation
+/-! ### OneOf / AllOf keep the value as it was given (fixed in /repo 89fd84a)
 
-Since OneOf / AllOf store what the matched / first option built, the stored value can be one the field itself refuses:
-every entry point that re-validates the stored value (deepcopy, shallow_clone_with_overrides, from_other_class,
-serialize-then-deserialize) then raises on a VALID instance.  The model's clones reproduce it (they go through the
-constructor); `copy.deepcopy` is modelled as the identity, and the check reports the difference as finding
-`copy-raises:deepcopy:{allOf,oneOf}`. -/
+For a short while (/repo 95931f6) OneOf / AllOf stored what the matched / first option built; such a value need not be
+accepted by the field again (AllOf[Float(minimum=0), Integer(maximum=5)] given 2 stored 2.0; OneOf[Boolean, Enum[1, 3]]
+given 'True' stored True), so `copy.deepcopy` and every clone of a valid instance raised.  The construct suite found it
+(`copy-raises:deepcopy:{allOf,oneOf}`); since 89fd84a the given value is kept (as a private copy). -/
 
-/-- kernel-checked counterexamples: AllOf[Float(minimum=0), Integer(maximum=5)] given 2 stores 2.0, which the field
-    refuses (TypeError); OneOf[Boolean, Enum[1, 3]] given 'True' stores True, which two options accept (ValueError);
-    a clone of the valid instance is refused -/
-theorem stored_value_refused_counterexample :
+/-- the two inputs that exposed the regression: what is stored is the input itself, and it is accepted again; a clone
+    of the instance succeeds -/
+theorem fixed_stored_value_revalidates :
     let O : Oracles := { reMatch := fun _ _ => true }
     let fA : FieldDecl := .allOf [.float { min := some ⟨0, 1⟩ }, .integer { max := some ⟨5, 1⟩ }]
     let fO : FieldDecl := .oneOf [.boolean, .enumLit [.int 1, .int 3]]
-    (match validate O fA (.int 2) with | .ok (.float q) => q.num == 2 && q.den == 1 | _ => false) = true
-    ∧ (match validate O fA (.float ⟨2, 1⟩) with | .error .typeErr => true | _ => false) = true
-    ∧ (match validate O fO (.str "True") with | .ok (.bool true) => true | _ => false) = true
-    ∧ (match validate O fO (.bool true) with | .error .valueErr => true | _ => false) = true
-    ∧ (match runChain O (.struct { name := "A", required := [], addl := false, accepts := ["A"] } [("b", fA)] [])
-          (.inst "A" [("b", .float ⟨2, 1⟩)]) [.shallowClone []] with
-        | .error .typeErr => true | _ => false) = true := by
+    (match validate O fA (.int 2) with | .ok (.int 2) => true | _ => false) = true
+    ∧ (match validate O fO (.str "True") with | .ok (.str s) => s == "True" | _ => false) = true
+    ∧ (match runChain O (.struct { name := "A", required := [], addl := false, accepts := ["A"] } [("b", fA), ("c", fO)] [])
+          (.inst "A" [("b", .int 2), ("c", .str "True")]) [.deepcopy, .shallowClone [], .castTo] with
+        | .ok (.inst "A" _) => true | _ => false) = true := by
   decide
 
 /-! ### non-vacuity -/
